@@ -12,12 +12,22 @@
     with the upper-case templates; the column pre-image has no keyword);
   * determinism: `hashWith` is a function (no map iteration, no clock).
 
+  * `value_is_a_function_of_the_schema` — **from scripts** (Proofs/HashScripts.lean): for every script of any length over
+    the element-safe vocabulary without inline PRIMARY KEY that the reference engine accepts, the value computed for
+    the model the MySQL reader loads is `DB.hashOf` of the *reference schema* — a function that reads, per table and in
+    table order, the columns' names and types, the primary key and the indexes, and nothing else: not the script, not
+    the order of columns or indexes, not a column option, not an element created and dropped again, not the table name;
+  * `same_schema_same_value_from_scripts` — hence two scripts whose reference schemas agree table by table on those
+    (multisets of (name, type), indexes up to order, key) have the same value, under either keyword-case option.
+
   Missing: the "different schema ⇒ different value" direction (needs an explicit collision-freeness hypothesis on the
   finitely many pre-images); it is decided on every run by the single-element edits of the `hash` suite, where a
   collision with md5 is the only way the run could wrongly pass.  That elements created and dropped again do not count
   follows from the reader forgetting them (C05 state correspondence).
 -/
 import SqlizeModel.Proofs.Hash
+import SqlizeModel.Proofs.HashScripts
+import SqlizeModel.Props.C03
 
 namespace Sqlize.C07
 open Sqlize
@@ -54,6 +64,39 @@ theorem case_option_irrelevant (H : String → String) (F : String → Int) (g :
   have : (fun t => Table.hashWith H { g with lower := true } t) = (fun t => Table.hashWith H { g with lower := false } t) :=
     funext htab
   simp only [this]
+
+open Sqlize.Spec in
+/-- from scripts: `HashValue` of the loaded model is a function of the reference schema -/
+theorem value_is_a_function_of_the_schema (H : String → String) (F : String → Int) (g : Globals) (rc : Bool)
+    (ss : List Stmt) (db : DB)
+    (hs : ss.all Stmt.elemSafe = true) (ht : ss.all Stmt.tablePk = true) (he : execAll rc [] ss = some db) :
+    ∃ m, ReaderMysql.run {} ss = .ok m ∧ m.hashWith H F g = .ok (db.hashOf H F g) :=
+  hash_of_schema H F g rc ss db hs ht he
+
+open Sqlize.Spec in
+/-- same schema ⇒ same value, from two scripts written differently -/
+theorem same_schema_same_value_from_scripts (H : String → String) (F : String → Int) (g : Globals) (rc : Bool)
+    (A B : List Stmt) (dbA dbB : DB)
+    (hA : A.all Stmt.elemSafe = true) (hB : B.all Stmt.elemSafe = true)
+    (htA : A.all Stmt.tablePk = true) (htB : B.all Stmt.tablePk = true)
+    (heA : execAll rc [] A = some dbA) (heB : execAll rc [] B = some dbB)
+    (hlen : dbA.length = dbB.length)
+    (hsame : ∀ (i : Nat) (a b : TableSpec), dbA[i]? = some a → dbB[i]? = some b →
+      (a.cols.map (fun c => (c.name, c.typ))).Perm (b.cols.map (fun c => (c.name, c.typ))) ∧ a.idxs.Perm b.idxs ∧ a.pk = b.pk) :
+    ∃ mA mB v, ReaderMysql.run {} A = .ok mA ∧ ReaderMysql.run {} B = .ok mB ∧
+      mA.hashWith H F g = .ok v ∧ mB.hashWith H F { g with lower := !g.lower } = .ok v :=
+  same_schema_same_value H F g rc A B dbA dbB hA hB htA htB heA heB hlen hsame
+
+-- non-vacuity of the two theorems: the scripts `C03.exA2` / `C03.exB2` (one CREATE TABLE with indexes; a history with
+-- another column order, a detour column, the key added by ALTER TABLE) meet the decidable hypotheses, their reference
+-- schemas have one table each; as a test (not the theorem) the model's values under the real md5 agree
+open Sqlize.Spec in
+example : C03.exA2.all Stmt.elemSafe = true ∧ C03.exB2.all Stmt.elemSafe = true ∧
+    C03.exA2.all Stmt.tablePk = true ∧ C03.exB2.all Stmt.tablePk = true ∧
+    ((execAll true [] C03.exA2).map List.length) = some 1 ∧ ((execAll true [] C03.exB2).map List.length) = some 1 := by decide
+#guard (do let a ← ReaderMysql.run {} C03.exA2; a.hashValue {}).toOption ==
+       (do let b ← ReaderMysql.run {} C03.exB2; b.hashValue { lower := true }).toOption
+#guard (do let a ← ReaderMysql.run {} C03.exA2; a.hashValue {}).toOption.isSome
 
 -- non-vacuity: a permuted column list is a different list with the same digest input multiset
 example : (["b", "a"] : List String).Perm ["a", "b"] := List.Perm.swap _ _ _
